@@ -1,5 +1,5 @@
 (** C08 - interpolants reproduce their data (SplineInterpolator1D / 2D of spline_interpolators.py).
-    Only statements, [exact]s and [Print Assumptions]; the proofs live in InterpTheory.v, Interp2D.v and GrevilleTheory.v (model: InterpModel.v,
+    Only statements, [exact]s and [Print Assumptions]; the proofs live in InterpTheory.v, Interp2D.v, GrevilleTheory.v, MarsdenTheory.v and EndValueTheory.v (model: InterpModel.v,
     evaluation: SplineModel.v / SplineTheory.v of C07, seed: CollocRow.row_dot_is_eval) and InterpQc.v (the
     instance on Qc that is extracted and run, and the witnesses computed with it).  Every theorem holds for
     every field with a compatible decidable total order ([sp_laws]), every degree and every size.
@@ -12,9 +12,6 @@
     BY the check A.X = B ([c08_lin_solve_spec] holds by construction); LAPACK / SuperLU are modelled by it.
 
     NOT proved here (see the evidence, "uncovered_clauses"):
-    - reproduction of polynomials of degree 2..p on clamped spaces (Marsden's identity is not formalised); degree 0 is
-      [c08_interp1d_const] + [c08_const_spline], degree 1 is [c08_interp1d_reproduces_linear] (Greville identity
-      [c08_greville_identity]); degrees 2..5 are tested exactly;
     - non-singularity of the collocation matrix for all admissible spaces (Schoenberg-Whitney): the theorems that
       need uniqueness carry the per-instance certificate [ip_inverse_ok] (checked at run time);
     - floating-point rounding, LAPACK ?gbtrf/?gbtrs, SuperLU.
@@ -25,7 +22,7 @@
     nbasis.  [c08_lww_row_pinned_tree] documents the last-write-wins assignment of the pinned tree (defect 10). *)
 From Coq Require Import List Arith Lia ZArith Bool QArith Qcanon.
 Import ListNotations.
-From PGV Require Import BasisCoxDeBoor CoxDeBoorGen FindSpan CubicUniform CollocRow Sums SplineModel SplineTheory SplineQc InterpModel InterpTheory Interp2D QuadTheory GrevilleTheory QuadSumTheory CirculantTheory CubicQuadTheory InterpQc.
+From PGV Require Import BasisCoxDeBoor CoxDeBoorGen FindSpan CubicUniform CollocRow Sums SplineModel SplineTheory SplineQc InterpModel InterpTheory Interp2D QuadTheory GrevilleTheory QuadSumTheory CirculantTheory CubicQuadTheory MarsdenTheory EndValueTheory InterpQc.
 
 (** the solver: a returned X has the shape n x m and satisfies A.X = B (by construction: the check is part of the definition) *)
 Theorem c08_lin_solve_spec :
@@ -384,6 +381,224 @@ Theorem c08_interp1d_reproduces_linear :
   sp_nu_eval_1d_scalar F K x knots p c 0 = SpOk (spadd K alpha (spmul K beta x)).
 Proof. exact (@ip_interp1d_reproduces_linear). Qed.
 Print Assumptions c08_interp1d_reproduces_linear.
+
+(** Marsden identity in symmetric-function form, on a span, every degree k <= s, every x, every m: sum_i e_m(t_{i+1}, ..., t_{i+k}) N_{i,k}(x) = C(k,m) x^m ([ip_esym] = elementary symmetric polynomial of a list, [ip_win knots k i] = the window t_{i+1..i+k}, [ip_binom] = Pascal, [ip_pow] = power) *)
+Theorem c08_marsden_esym :
+  forall (F : Type) (K : sp_ops F),
+  sp_laws K ->
+  forall (knots : list F) (x : F) (s : nat),
+  sp_sorted F K knots ->
+  sp_span_ok F K knots s ->
+  forall k : nat,
+  (k <= s)%nat ->
+  forall m : nat,
+  sumn F (sp0 K) (spadd K) (S k)
+  (fun q : nat =>
+  spmul K (ip_esym F K (ip_win F K knots k (s - k + q)) m)
+  (Ng F (sp0 K) (spadd K) (spmul K) (spsub K) (spdiv K) (sp_kn F K knots) x
+  (speqb K) (delta F (sp0 K) (sp1 K) s) k (s - k + q))) =
+  spmul K (sp_ofnat F K (ip_binom k m)) (ip_pow F K x m).
+Proof. exact (@ip_marsden_esym). Qed.
+Print Assumptions c08_marsden_esym.
+
+(** generic: coefficients gam_j that reproduce g on every non-empty span (local identity on the A2.2 values) give a spline equal to g on the whole closed domain *)
+Theorem c08_spline_reproduces :
+  forall (F : Type) (K : sp_ops F),
+  sp_laws K ->
+  forall (knots : list F) (p : nat) (gam : nat -> F) (g : F -> F),
+  sp_sorted F K knots ->
+  (2 * p + 1 < length knots)%nat ->
+  sp_lt K (sp_kn F K knots p) (sp_kn F K knots (S p)) ->
+  sp_lt K (sp_kn F K knots (length knots - p - 2)) (sp_kn F K knots (length knots - 1 - p)) ->
+  (forall (x : F) (s : nat),
+  sp_span_ok F K knots s ->
+  (p <= s)%nat ->
+  sumn F (sp0 K) (spadd K) (S p)
+  (fun j : nat => spmul K (gam (s - p + j)%nat) (nth j (sp_A22 F K knots p x s) (sp0 K))) =
+  g x) ->
+  forall (c : list F) (x : F),
+  sp_le K (sp_kn F K knots p) x ->
+  sp_le K x (sp_kn F K knots (length knots - 1 - p)) ->
+  length c = (length knots - p - 1)%nat ->
+  (forall j : nat, (j < length c)%nat -> nth j c (sp0 K) = gam j) ->
+  sp_nu_eval_1d_scalar F K x knots p c 0 = SpOk (g x).
+Proof. exact (@ip_spline_reproduces). Qed.
+Print Assumptions c08_spline_reproduces.
+
+(** generic: then the interpolant of the nodal values g(x_i) (any points of the domain, checked inverse) is g on the whole closed domain *)
+Theorem c08_interp1d_reproduces :
+  forall (F : Type) (K : sp_ops F),
+  sp_laws K ->
+  forall (knots : list F) (p : nat) (gam : nat -> F) (g : F -> F),
+  sp_sorted F K knots ->
+  (2 * p + 1 < length knots)%nat ->
+  sp_lt K (sp_kn F K knots p) (sp_kn F K knots (S p)) ->
+  sp_lt K (sp_kn F K knots (length knots - p - 2)) (sp_kn F K knots (length knots - 1 - p)) ->
+  (forall (x : F) (s : nat),
+  sp_span_ok F K knots s ->
+  (p <= s)%nat ->
+  sumn F (sp0 K) (spadd K) (S p)
+  (fun j : nat => spmul K (gam (s - p + j)%nat) (nth j (sp_A22 F K knots p x s) (sp0 K))) =
+  g x) ->
+  forall (xs : list F) (A Ainv : list (list F)) (u c : list F),
+  let nb := ip_nbasis F K knots p false false in
+  ip_colloc F K nb knots p false false xs = SpOk A ->
+  ip_inverse_ok F K nb A Ainv = true ->
+  (forall i : nat,
+  (i < nb)%nat ->
+  sp_le K (sp_kn F K knots p) (nth i xs (sp0 K)) /\
+  sp_le K (nth i xs (sp0 K)) (sp_kn F K knots (length knots - 1 - p))) ->
+  ip_interp1d F K knots p false false xs u = SpOk c ->
+  (forall i : nat, (i < nb)%nat -> nth i u (sp0 K) = g (nth i xs (sp0 K))) ->
+  forall x : F,
+  sp_le K (sp_kn F K knots p) x ->
+  sp_le K x (sp_kn F K knots (length knots - 1 - p)) ->
+  sp_nu_eval_1d_scalar F K x knots p c 0 = SpOk (g x).
+Proof. exact (@ip_interp1d_reproduces). Qed.
+Print Assumptions c08_interp1d_reproduces.
+
+(** EVERY polynomial of degree <= p (coefficient list a_0..a_m, m <= p, value [ip_polyval]) is the spline with the explicit coefficients [ip_poly_coeff] = sum_m a_m e_m(t_{j+1..j+p})/C(p,m): the general evaluator returns the polynomial at every x of the closed domain (any sorted knot vector whose first and last cells are not empty) *)
+Theorem c08_poly_spline :
+  forall (F : Type) (K : sp_ops F),
+  sp_laws K ->
+  forall (knots : list F) (p : nat) (a c : list F) (x : F),
+  sp_sorted F K knots ->
+  (2 * p + 1 < length knots)%nat ->
+  sp_lt K (sp_kn F K knots p) (sp_kn F K knots (S p)) ->
+  sp_lt K (sp_kn F K knots (length knots - p - 2)) (sp_kn F K knots (length knots - 1 - p)) ->
+  (length a <= S p)%nat ->
+  sp_le K (sp_kn F K knots p) x ->
+  sp_le K x (sp_kn F K knots (length knots - 1 - p)) ->
+  length c = (length knots - p - 1)%nat ->
+  (forall j : nat, (j < length c)%nat -> nth j c (sp0 K) = ip_poly_coeff F K knots p a j) ->
+  sp_nu_eval_1d_scalar F K x knots p c 0 = SpOk (ip_polyval F K a x).
+Proof. exact (@ip_poly_spline). Qed.
+Print Assumptions c08_poly_spline.
+
+(** POLYNOMIAL REPRODUCTION, all degrees <= p: on a clamped general space the interpolant of the nodal values of a polynomial of degree <= p - at ANY interpolation points of the domain, collocation matrix with a checked inverse - evaluates to the polynomial at every x of the closed domain *)
+Theorem c08_interp1d_reproduces_poly :
+  forall (F : Type) (K : sp_ops F),
+  sp_laws K ->
+  forall (knots : list F) (p : nat) (a xs : list F) (A Ainv : list (list F)) (u c : list F),
+  let nb := ip_nbasis F K knots p false false in
+  sp_sorted F K knots ->
+  (2 * p + 1 < length knots)%nat ->
+  sp_lt K (sp_kn F K knots p) (sp_kn F K knots (S p)) ->
+  sp_lt K (sp_kn F K knots (length knots - p - 2)) (sp_kn F K knots (length knots - 1 - p)) ->
+  (length a <= S p)%nat ->
+  ip_colloc F K nb knots p false false xs = SpOk A ->
+  ip_inverse_ok F K nb A Ainv = true ->
+  (forall i : nat,
+  (i < nb)%nat ->
+  sp_le K (sp_kn F K knots p) (nth i xs (sp0 K)) /\
+  sp_le K (nth i xs (sp0 K)) (sp_kn F K knots (length knots - 1 - p))) ->
+  ip_interp1d F K knots p false false xs u = SpOk c ->
+  (forall i : nat, (i < nb)%nat -> nth i u (sp0 K) = ip_polyval F K a (nth i xs (sp0 K))) ->
+  forall x : F,
+  sp_le K (sp_kn F K knots p) x ->
+  sp_le K x (sp_kn F K knots (length knots - 1 - p)) ->
+  sp_nu_eval_1d_scalar F K x knots p c 0 = SpOk (ip_polyval F K a x).
+Proof. exact (@ip_interp1d_reproduces_poly). Qed.
+Print Assumptions c08_interp1d_reproduces_poly.
+
+(** the monomial x^2 (p >= 2): coefficients xi_j^(2) = e_2(t_{j+1..j+p})/C(p,2) = (sum_{i<k in the window} t_i t_k)/C(p,2) ([ip_mono_coeff knots p 2 j]); the evaluator returns x*x on the closed domain *)
+Theorem c08_square_spline :
+  forall (F : Type) (K : sp_ops F),
+  sp_laws K ->
+  forall (knots : list F) (p : nat) (c : list F) (x : F),
+  sp_sorted F K knots ->
+  (2 * p + 1 < length knots)%nat ->
+  (2 <= p)%nat ->
+  sp_lt K (sp_kn F K knots p) (sp_kn F K knots (S p)) ->
+  sp_lt K (sp_kn F K knots (length knots - p - 2)) (sp_kn F K knots (length knots - 1 - p)) ->
+  sp_le K (sp_kn F K knots p) x ->
+  sp_le K x (sp_kn F K knots (length knots - 1 - p)) ->
+  length c = (length knots - p - 1)%nat ->
+  (forall j : nat, (j < length c)%nat -> nth j c (sp0 K) = ip_mono_coeff F K knots p 2 j) ->
+  sp_nu_eval_1d_scalar F K x knots p c 0 = SpOk (spmul K x x).
+Proof. exact (@ip_square_spline). Qed.
+Print Assumptions c08_square_spline.
+
+(** clamped knot vector ([ip_clamped]), p >= 1: at x = a = t_p the span is p and the basis values are (1, 0, ..., 0) *)
+Theorem c08_left_end_values :
+  forall (F : Type) (K : sp_ops F),
+  sp_laws K ->
+  forall (knots : list F) (p : nat),
+  ip_clamped F K knots p ->
+  (1 <= p)%nat ->
+  sp_nu_find_span F K knots p (sp_kn F K knots p) = SpOk p /\
+  sp_nu_basis_funs F K knots p (sp_kn F K knots p) p = SpOk (sp_A22 F K knots p (sp_kn F K knots p) p) /\
+  (forall q : nat,
+  (q <= p)%nat ->
+  nth q (sp_A22 F K knots p (sp_kn F K knots p) p) (sp0 K) = (if (q =? 0)%nat then sp1 K else sp0 K)).
+Proof. exact (@ip_left_end_values). Qed.
+Print Assumptions c08_left_end_values.
+
+(** at x = b = t_{len-1-p} the span is len-p-2 (the last one) and the basis values are (0, ..., 0, 1) *)
+Theorem c08_right_end_values :
+  forall (F : Type) (K : sp_ops F),
+  sp_laws K ->
+  forall (knots : list F) (p : nat),
+  ip_clamped F K knots p ->
+  (1 <= p)%nat ->
+  sp_nu_find_span F K knots p (sp_kn F K knots (length knots - 1 - p)) =
+  SpOk (length knots - p - 2)%nat /\
+  sp_nu_basis_funs F K knots p (sp_kn F K knots (length knots - 1 - p)) (length knots - p - 2) =
+  SpOk (sp_A22 F K knots p (sp_kn F K knots (length knots - 1 - p)) (length knots - p - 2)) /\
+  (forall q : nat,
+  (q <= p)%nat ->
+  nth q (sp_A22 F K knots p (sp_kn F K knots (length knots - 1 - p)) (length knots - p - 2)) (sp0 K) =
+  (if (q =? p)%nat then sp1 K else sp0 K)).
+Proof. exact (@ip_right_end_values). Qed.
+Print Assumptions c08_right_end_values.
+
+(** hence S(a) = c_0 and S(b) = c_last for the general evaluator on a clamped space (a clamped spline vanishes at a Dirichlet boundary iff its first / last coefficient is zero) *)
+Theorem c08_clamped_end_eval :
+  forall (F : Type) (K : sp_ops F),
+  sp_laws K ->
+  forall (knots : list F) (p : nat),
+  ip_clamped F K knots p ->
+  (1 <= p)%nat ->
+  forall c : list F,
+  length c = (length knots - p - 1)%nat ->
+  sp_nu_eval_1d_scalar F K (sp_kn F K knots p) knots p c 0 = SpOk (nth 0 c (sp0 K)) /\
+  sp_nu_eval_1d_scalar F K (sp_kn F K knots (length knots - 1 - p)) knots p c 0 =
+  SpOk (nth (length knots - p - 2) c (sp0 K)).
+Proof. exact (@ip_clamped_end_eval). Qed.
+Print Assumptions c08_clamped_end_eval.
+
+(** the uniform-cubic path is NOT interpolatory at the ends (the space is the restriction of uniform B-splines): S(xmin) = (c_0 + 4 c_1 + c_2)/6, S(xmax) = (c_n + 4 c_{n+1} + c_{n+2})/6, n = ncells (xmax = xmin + n dx, int() = floor) *)
+Theorem c08_cubic_end_eval :
+  forall (F : Type) (K : sp_ops F),
+  sp_laws K ->
+  forall (xmin xmax dx fn : F) (n : nat),
+  sp_trunc_ok F K ->
+  dx <> sp0 K ->
+  sptrunc K fn = Z.of_nat n ->
+  (1 <= n)%nat ->
+  xmax = spadd K xmin (spmul K (sp_ofnat F K n) dx) ->
+  forall c : list F,
+  length c = (n + 3)%nat ->
+  sp_cu_eval_1d_scalar F K xmin [xmin; xmax; dx; fn] 3 c 0 =
+  SpOk
+  (spdiv K
+  (spadd K
+  (spadd K (nth 0 c (sp0 K))
+  (spmul K (spadd K (spadd K (spadd K (sp1 K) (sp1 K)) (sp1 K)) (sp1 K)) (nth 1 c (sp0 K))))
+  (nth 2 c (sp0 K)))
+  (spadd K (spadd K (spadd K (spadd K (spadd K (sp1 K) (sp1 K)) (sp1 K)) (sp1 K)) (sp1 K))
+  (sp1 K))) /\
+  sp_cu_eval_1d_scalar F K xmax [xmin; xmax; dx; fn] 3 c 0 =
+  SpOk
+  (spdiv K
+  (spadd K
+  (spadd K (nth n c (sp0 K))
+  (spmul K (spadd K (spadd K (spadd K (sp1 K) (sp1 K)) (sp1 K)) (sp1 K))
+  (nth (n + 1) c (sp0 K)))) (nth (n + 2) c (sp0 K)))
+  (spadd K (spadd K (spadd K (spadd K (spadd K (sp1 K) (sp1 K)) (sp1 K)) (sp1 K)) (sp1 K))
+  (sp1 K))).
+Proof. exact (@ip_cubic_end_eval). Qed.
+Print Assumptions c08_cubic_end_eval.
 
 (** the bookkeeping at the heart of the headline: a row written by np.add.at (repeated columns add up), dotted with ANY vector, is the sum eval forms through the same column map - for EVERY column map into [0, n), no injectivity *)
 Theorem c08_row_acc_dot :
